@@ -339,6 +339,28 @@ def table_ops_family():
         yield f"O/{op}/reshape", _model(nodes, [_vi("in_0", F, [2, 3, 4])], [_vi("y", F, [2, 3, 4])], inits)
 
 
+def mixed_dtype_family():
+    """every operator of the CURRENT binary / chain tables applied to operands of DIFFERENT element types (a one-element
+    constant of type TA with a tensor of type TB, both orders), followed by a Cast to each of the two types: only the
+    schema-valid combinations survive the validity filter of the runner (Pow is the standard one).  An operator whose result
+    type is not the type of every operand must not have its output re-typed / a following Cast dropped."""
+    import os
+    import sys
+    sys.path.insert(0, os.environ.get("VERIF_REPO", "/repo"))
+    from jax2onnx.converter import ir_optimizations as opt
+    ops = sorted(set(opt.ELEMENTWISE_BINARY_OPS) | set(opt.ALLOWED_ELEMWISE))
+    NP = {F: np.float32, TP.DOUBLE: np.float64, TP.INT32: np.int32, TP.INT64: np.int64}
+    for op in ops:
+        for ta, tb in ((F, TP.INT32), (TP.INT32, F), (F, TP.DOUBLE), (TP.DOUBLE, F), (TP.INT64, TP.INT32)):
+            for order in ("const_first", "const_second"):
+                c = _const("c", np.asarray(2, NP[ta]))
+                ins = ["c", "in_0"] if order == "const_first" else ["in_0", "c"]
+                for cast_to in (ta, tb):
+                    nodes = [H.make_node(op, ins, ["p"], name="Op"), H.make_node("Cast", ["p"], ["y"], to=cast_to, name="C")]
+                    yield (f"P/mixed_dtype/{op}/{TP.DataType.Name(ta)}x{TP.DataType.Name(tb)}/{order}/cast_{TP.DataType.Name(cast_to)}",
+                           _model(nodes, [_vi("in_0", tb, [3])], [_vi("y", cast_to, [3])], [c]))
+
+
 def capture_family():
     """an intermediate of a foldable pattern observed ONLY inside one branch of an If (then-only / else-only / both)"""
     shape, p1, p2 = (2, 3, 4), (1, 2, 0), (2, 0, 1)
@@ -564,5 +586,5 @@ def side_rank_family():
 
 
 def all_graphs():
-    for fam in (lookalike_family, side_rank_family, forest_self_inverse_family, addchain_self_inverse_family, misc_family, multi_family, capture_family, table_ops_family, cast_family, reshape_family, transpose_family):
+    for fam in (lookalike_family, mixed_dtype_family, side_rank_family, forest_self_inverse_family, addchain_self_inverse_family, misc_family, multi_family, capture_family, table_ops_family, cast_family, reshape_family, transpose_family):
         yield from fam()
